@@ -128,6 +128,9 @@ func c20(tier string) []*explore.Scenario {
 	for _, n := range []int{2, 3} {
 		out = append(out, c20Overlap(n, "Bidi"), c20Overlap(n, "Unary"))
 	}
+	for _, ic := range []string{"retry", "fallback", "own-context", "retry-stream"} {
+		out = append(out, c20ClientInterceptorStats(ic))
+	}
 	for nsh := 1; nsh <= 3; nsh++ {
 		out = append(out, c20Stats(nsh, 0))
 	}
@@ -544,6 +547,104 @@ func c20Overlap(n int, kind string) *explore.Scenario {
 					vsched.Fail(fam+"|status", "%s RPC %s never completed", kind, tag)
 				}
 			}
+		},
+	}
+}
+
+// c20ClientInterceptorStats: a client interceptor that is not a pass-through -
+// it calls the invoker twice (retry after a failure), turns a failure into
+// success (fallback), or hands the invoker a context of its own - together with
+// a client stats handler. Each RPC that goes out has its own Begin ... End,
+// End.Error tells whether THAT RPC succeeded, and every event carries the
+// context TagRPC returned for it.
+func c20ClientInterceptorStats(what string) *explore.Scenario {
+	fam := "C20/stats"
+	return &explore.Scenario{
+		Name: "C20/client-interceptor-with-stats/" + what, Family: fam, Prop: "C20", Bound: 0, Horizon: time.Hour,
+		Run: func() {
+			sh := newC20SH("c0")
+			type ownKey struct{}
+			dial := []goat.DialOption{goat.WithStatsHandler(sh),
+				goat.WithUnaryInterceptor(func(ctx context.Context, method string, req, reply any, cc *grpc.ClientConn, inv grpc.UnaryInvoker, opts ...grpc.CallOption) error {
+					switch what {
+					case "retry":
+						if err := inv(ctx, method, req, reply, cc, opts...); err != nil {
+							return inv(ctx, method, req, reply, cc, opts...)
+						}
+						return nil
+					case "fallback":
+						if err := inv(ctx, method, req, reply, cc, opts...); err != nil {
+							reply.(*env.Msg).Value = []byte("default")
+						}
+						return nil
+					case "own-context":
+						return inv(context.WithValue(context.Background(), ownKey{}, 1), method, req, reply, cc, opts...)
+					}
+					return inv(ctx, method, req, reply, cc, opts...)
+				}),
+				goat.WithStreamInterceptor(func(ctx context.Context, desc *grpc.StreamDesc, cc *grpc.ClientConn, method string, st grpc.Streamer, opts ...grpc.CallOption) (grpc.ClientStream, error) {
+					if what == "retry-stream" {
+						// open, give up on the first attempt, open again
+						c1, cancel1 := context.WithCancel(ctx)
+						if cs, err := st(c1, desc, cc, method, opts...); err == nil {
+							cancel1()
+							cs.RecvMsg(new(env.Msg))
+						} else {
+							cancel1()
+						}
+					}
+					return st(ctx, desc, cc, method, opts...)
+				}),
+			}
+			w := env.NewWorld()
+			d := env.NewDirect(w, env.DirectOpts{Pipe: env.PipeOpts{Cap: 64}, DialOpts: dial})
+			vsched.Settle()
+			calls := 0
+			w.Rec("u", "Unary")
+			w.Unaries["u"] = func(r *env.Rec, ctx context.Context, in string) (string, error) {
+				calls++
+				if calls == 1 && what != "own-context" {
+					return "", status.Error(codes.Unavailable, "try again")
+				}
+				return "fine", nil
+			}
+			w.Rec("s", "Bidi")
+			w.Handlers["s"] = env.HEcho
+			var okByRPC []bool // per RPC on the wire, in order: did it succeed
+			if what == "retry-stream" {
+				r := w.Recs["s"]
+				cs := w.Open(d.CC, context.Background(), r)
+				if cs != nil {
+					env.CSend(r, cs, "m")
+					env.CClose(r, cs)
+					env.CRecvAll(r, cs)
+				}
+				vsched.QuiesceTime()
+				okByRPC = []bool{false, r.CErr == io.EOF}
+			} else {
+				out := new(env.Msg)
+				err := d.CC.Invoke(context.Background(), env.MUnary, env.S("u|x"), out)
+				vsched.QuiesceTime()
+				switch what {
+				case "retry":
+					okByRPC = []bool{false, true}
+					if err != nil || string(out.Value) != "fine" {
+						vsched.Fail(fam+"|harness", "retry: caller saw err=%v reply=%q", err, out.Value)
+					}
+				case "fallback":
+					okByRPC = []bool{false}
+				case "own-context":
+					okByRPC = []bool{true}
+				}
+			}
+			vsched.Obs("%s: events %v untagged %v", what, sh.events, sh.untagged)
+			sh.check(fam, "client", len(okByRPC), func(i int) (bool, bool) {
+				if i < len(okByRPC) {
+					return okByRPC[i], true
+				}
+				return false, false
+			})
+			finishDirect(d, w, false)
 		},
 	}
 }
